@@ -64,6 +64,61 @@ pub fn c01(ctx: &Ctx) -> Report {
             if i < 2 && t == 0 {
                 rep.sample(J::obj(vec![("cfg", J::s(&c.cfg.describe())), ("entries", J::s(&entries_str(&c.es))), ("image_bytes", J::N(c.img.len() as i64))]));
             }
+            // other sinks / sources of the quantifier: File and BufWriter<File> sinks, Table::new_from_file
+            if i % 25 == 0 {
+                use std::io::Write;
+                let dir = std::path::Path::new("/verif/.cache/tmp");
+                let _ = std::fs::create_dir_all(dir);
+                let path = dir.join(format!("c01-{}-{}-{}.sst", std::process::id(), t, i));
+                let built = guarded(|| -> std::result::Result<usize, String> {
+                    let f = std::fs::File::create(&path).map_err(|e| e.to_string())?;
+                    let n = if i % 50 == 0 {
+                        let mut b = sstable::TableBuilder::new(c.cfg.options(), std::io::BufWriter::new(f));
+                        for (k, v) in c.es.iter() {
+                            b.add(k, v).map_err(|e| e.err)?;
+                        }
+                        b.finish().map_err(|e| e.err)?
+                    } else {
+                        let mut f = f;
+                        let n = {
+                            let mut b = sstable::TableBuilder::new(c.cfg.options(), &mut f);
+                            for (k, v) in c.es.iter() {
+                                b.add(k, v).map_err(|e| e.err)?;
+                            }
+                            b.finish().map_err(|e| e.err)?
+                        };
+                        f.flush().map_err(|e| e.to_string())?;
+                        n
+                    };
+                    Ok(n)
+                });
+                rep.count(if i % 50 == 0 { "sink_bufwriter_file" } else { "sink_file" });
+                let on_disk = std::fs::read(&path).unwrap_or_default();
+                let mut ok = matches!(built, Ok(Ok(n)) if n == on_disk.len()) && on_disk == c.img;
+                if ok {
+                    let mut ro = c.cfg.options();
+                    ro.block_size = 77;
+                    match sstable::Table::new_from_file(ro, &path) {
+                        Ok(tb) => {
+                            use sstable::SSIterator;
+                            let mut it = tb.iter();
+                            let mut got = vec![];
+                            while let Some(e) = it.next() {
+                                got.push(e);
+                                if got.len() > c.es.len() + 1 {
+                                    break;
+                                }
+                            }
+                            ok = got == c.es;
+                        }
+                        Err(_) => ok = false,
+                    }
+                }
+                let _ = std::fs::remove_file(&path);
+                if !ok {
+                    fail(rep, &c, "table written to a File / BufWriter sink and read with Table::new_from_file differs from the Vec run", vec![]);
+                }
+            }
         }
     })
 }
